@@ -1,5 +1,6 @@
 import CstModel.Props.C02
 import CstModel.Props.C03
+import CstModel.Props.Gen
 open Cst.C02
 #print axioms history_canonical
 #print axioms observed_range
@@ -11,3 +12,4 @@ open Cst.C02
 #print axioms resolve_text_slice
 #print axioms Cst.C03.forwarders_elem_ok
 #print axioms Cst.C03.forwarders_resolved_ok
+#print axioms Cst.Gen.tok_text_range
